@@ -66,6 +66,8 @@ def ring(N : int, defect : float, open :bool = False, n_cover:int = 1) -> Surfac
     return _instanciate_raw_mesh_data(ring, 2)
 
 def flat_ring(N : int, defect : float, n_cover:int = 1) -> SurfaceMesh:
+    if N<1 or n_cover<1:
+        raise Exception("N and n_cover should be >= 1 for a valid ring. Aborting")
     ring = RawMeshData()
     max_defect = 2*pi-0.01
     defect = max(min(defect,max_defect), 0.) # 0 is ok, but 2pi is point at infinity
